@@ -409,6 +409,9 @@ def oracle(rng, tier):
             continue
         tag = "%s:%s:%s" % (p.get("route", "api"), p["type_"], "existing" if p["existing"] is not None else "fresh")
         hist[("holds" if ok else "fails") + ":" + (cls or ("in-guard" if guard else "no-class")) + ":" + tag] += 1
+        for e in p["module"]["entries"]:
+            if e["feat"].get("nested"):
+                hist["entry-with-nested:%s:%s" % (e["feat"]["nested"], "holds" if ok else "fails")] += 1
         # what the model says happens vs what happened
         m = loads(mr)
         m_ok = m[0][0] == "ok"
@@ -452,7 +455,9 @@ def oracle(rng, tier):
         "evaluations": len(allpts),
         "distinct_nontrivial": len(seen),
         "rule": "points = generated input module (1..4 classes with __init__ / functions, documented or not, annotated or "
-                "not) x type x name template x prepend x imports-from-file x route (API in-process, CLI in a child "
+                "not; about 3 entries in 10 contain nested definitions that are no entries: a helper class with its own "
+                "__init__ before / after the class's __init__, two levels deep or local to a method, a function local to a "
+                "method or to the entry function) x type x name template x prepend x imports-from-file x route (API in-process, CLI in a child "
                 "process) x existing output; non-trivial = distinct point inside guard_C19 on a fresh output where the "
                 "property was evaluated in full (parse, names, order, interface, __all__, header) and holds",
         "failures": failures,
